@@ -196,6 +196,7 @@ static void worker (long start, void *user)
   if (strstr (g_levels, "L1")) pgen_L1 (on_prog, &start, PG_INT | PG_FLOAT);
   if (strstr (g_levels, "L3")) { pgen_L3 (on_prog, &start, PG_INT); pgen_L3 (on_prog, &start, PG_FLOAT); }
   if (strstr (g_levels, "L5")) pgen_L5 (on_prog, &start);
+  if (strstr (g_levels, "L6")) pgen_L6 (on_prog, &start, PG_INT | PG_FLOAT);
   if (strstr (g_levels, "L4") && g_corpus) {
     char buf[2048], *fn, *save;
     strncpy (buf, g_corpus, sizeof (buf) - 1); buf[sizeof (buf) - 1] = 0;
